@@ -194,6 +194,11 @@ def oracle_step(w, op, outcome, ret, before):
                               '(schema-qualified table, column), kind, name and actions', None))
         except Exception:  # noqa: BLE001
             pass
+    if kind == 'ref' and op[0] == 'add' and outcome == 'ok':
+        obj = w.R[op[2]]
+        tabs = [c.table for c in list(obj.col1) + list(obj.col2)]
+        if not any(t is not None and any(t is x for x in db.tables) for t in tabs):
+            fails.append(('a reference none of whose tables is in the database (the very objects, not look-alikes) was accepted', None))
     if kind == 'ref' and op[0] == 'delete' and outcome == 'ok' and ret is not None:
         obj = w.R[op[2]]
         try:
